@@ -428,10 +428,10 @@ var $methodSet = typ => {
         var mset = [];
 
         current.forEach(e => {
-            if (seen[e.typ.string]) {
+            if (seen[e.typ.id]) {
                 return;
             }
-            seen[e.typ.string] = true;
+            seen[e.typ.id] = true;
 
             if (e.typ.named) {
                 mset = mset.concat(e.typ.methods);
@@ -732,8 +732,9 @@ var $assertType = (value, type, returnTuple) => {
     } else if (!isInterface) {
         ok = value.constructor === type;
     } else {
-        var valueTypeString = value.constructor.string;
-        ok = type.implementedBy[valueTypeString];
+        /* Memoise by type id: distinct types may share their type string. */
+        var valueTypeId = value.constructor.id;
+        ok = type.implementedBy[valueTypeId];
         if (ok === undefined) {
             ok = true;
             var valueMethodSet = $methodSet(value.constructor);
@@ -750,14 +751,14 @@ var $assertType = (value, type, returnTuple) => {
                 }
                 if (!found) {
                     ok = false;
-                    type.missingMethodFor[valueTypeString] = tm.name;
+                    type.missingMethodFor[valueTypeId] = tm.name;
                     break;
                 }
             }
-            type.implementedBy[valueTypeString] = ok;
+            type.implementedBy[valueTypeId] = ok;
         }
         if (!ok) {
-            missingMethod = type.missingMethodFor[valueTypeString];
+            missingMethod = type.missingMethodFor[valueTypeId];
         }
     }
 
